@@ -33,6 +33,7 @@ fn sema_sig(text: &str) -> Vec<(Option<String>, String, Vec<(usize, usize)>)> {
 
 /// returns Ok(Some(formatted)) when checked
 pub fn check_any(text: &str, ev: &mut Evidence, origin: &str) -> Result<Option<String>, Violation> {
+    let _case = crate::prop::case_guard("C17", origin, text);
     ev.eval();
     if ev.samples.len() < 3 && ev.evaluations % 503 == 1 {
         ev.sample(json!({"text": text, "origin": origin}));
@@ -59,6 +60,7 @@ pub fn check_any(text: &str, ev: &mut Evidence, origin: &str) -> Result<Option<S
 }
 
 pub fn check_valid(text: &str, ev: &mut Evidence, origin: &str) -> Result<Option<String>, Violation> {
+    let _case = crate::prop::case_guard("C17", origin, text);
     let Some(out) = check_any(text, ev, origin)? else { return Ok(None) };
     if lw::syntax_diag_count(text) > 0 {
         ev.exclude("text has syntax errors (character-level claim only)");
@@ -88,6 +90,7 @@ pub fn check_valid(text: &str, ev: &mut Evidence, origin: &str) -> Result<Option
 const RULE18: &str = "syntactically valid grammar files: generated grammars (all profiles) in random layouts (arbitrary line breaks and indentation; line, doc and block comments between declarations, after any token on the same line, on own lines inside rule bodies, inside brackets) and the repository files. Oracle: f = format(x): format(f) == f; sampled through the real binary: `llw -f file` then `llw -f -c file` exits 0, and on the original `llw -f -c` exits 0 exactly when format(x) == x. half of the layouts (called plain) place at most one comment per gap and none at the start of the text or directly after `:` `(` `[` (the placements of known finding K9), and any non-idempotence on such a text is reported under its own signature. non-trivial = text with >= 1 comment and >= 1 line break inside a rule body; distinct = the text";
 
 pub fn check_idem(text: &str, ev: &mut Evidence, origin: &str) -> Result<(), Violation> {
+    let _case = crate::prop::case_guard("C18", origin, text);
     ev.eval();
     if ev.samples.len() < 3 && ev.evaluations % 503 == 1 {
         ev.sample(json!({"text": text, "origin": origin}));
@@ -201,9 +204,18 @@ pub fn run17(ctx: &Ctx) -> i32 {
     for f in files {
         let v: serde_json::Value = serde_json::from_str(&std::fs::read_to_string(&f).unwrap()).unwrap();
         if let Some(t) = v["replay"]["text"].as_str() {
-            if let Err(v) = check_valid(t, &mut ev, "replay") {
-                rep.violation(v);
+            let t2 = t.to_string();
+            let limit = crate::prop::hang_limit();
+            match crate::prop::with_deadline(limit, move || {
+                let mut e2 = Evidence::new("C17", crate::ev::Tier::Quick, 0, "");
+                // any text: the formatter returns and keeps the non-whitespace characters; valid text: the full oracle
+                check_any(&t2, &mut e2, "replay").and_then(|_| check_valid(&t2, &mut e2, "replay"))
+            }) {
+                Some(Err(v)) => rep.violation(v),
+                Some(Ok(_)) => {}
+                None => rep.violation(Violation { sig: "no-return".into(), what: format!("the formatter does not return within {limit} s on {:?}; confirmed in a fresh process", t.chars().take(80).collect::<String>()), replay: json!({"text": t, "origin": "replay"}) }),
             }
+            ev.eval();
             ev.label("replayed");
         }
     }
@@ -290,9 +302,17 @@ pub fn run18(ctx: &Ctx) -> i32 {
     for f in files {
         let v: serde_json::Value = serde_json::from_str(&std::fs::read_to_string(&f).unwrap()).unwrap();
         if let Some(t) = v["replay"]["text"].as_str() {
-            if let Err(v) = check_idem(t, &mut ev, "replay") {
-                rep.violation(v);
+            let t2 = t.to_string();
+            let limit = crate::prop::hang_limit();
+            match crate::prop::with_deadline(limit, move || {
+                let mut e2 = Evidence::new("C18", crate::ev::Tier::Quick, 0, "");
+                check_idem(&t2, &mut e2, "replay")
+            }) {
+                Some(Err(v)) => rep.violation(v),
+                Some(Ok(())) => {}
+                None => rep.violation(Violation { sig: "no-return".into(), what: format!("formatting does not return within {limit} s on {:?}; confirmed in a fresh process", t.chars().take(80).collect::<String>()), replay: json!({"text": t, "origin": "replay"}) }),
             }
+            ev.eval();
             ev.label("replayed");
         }
     }
